@@ -122,11 +122,13 @@ class C04(Prop):
         return s
 
     def run_impl(self, case):
-        core.drain_hooks()
         sys = self.sysnp(case)
         B = np.asarray(case["b"], dtype=float)[None]
         kw = dict(HI) if case["acc"] == "high" else {}
         w = np.asarray(case["w"], dtype=float)
+        # warm-up: the same fit on a sibling system (other baseline) must leave no trace
+        gs.warm(lambda: gs.make_estimator(gs.sibling(sys), w=w).fit(B + 0.75, **kw))
+        core.drain_hooks()
         if case["entry"] == "lsq_linear":
             from dreye.api.optimize.lsq_linear import lsq_linear
             W = w[None] if case["wkind"] == "sample" else w
